@@ -334,6 +334,11 @@ def start(F, res, pol):
             if len(secs) == 1:
                 fi = cfield(secs[0]['args'][1], 'function_index')
                 some_ok = canon(fi) == ('idx', 'function', canon(cfield(sv[0], '0')))
+            elif w.outcome == 'return':
+                # the module has a start function but this path writes no start section: nothing may decide that but
+                # `module.start` itself (an imported start function, a deleted one ... are not reasons to drop it silently)
+                at = [show(k[1])[:80] for k, v in w.assumptions if isinstance(k, tuple) and k and k[0] == 'atom']
+                res.bad('start/emit/conditional', 'module.start is set but no start section is emitted when %s' % at[-2:])
         else:
             none_ok = not secs
     if some_ok and none_ok:
